@@ -4,6 +4,7 @@
 package cb
 
 import (
+	"context"
 	"fmt"
 	"math/big"
 	"net/http"
@@ -44,6 +45,7 @@ type sys struct {
 	latency time.Duration // how long it takes (advances the frozen clock)
 	// monitor
 	tripped           bool
+	retripped         bool // the current trip came out of the recovering state
 	tripAt            time.Time
 	inRecovery        bool
 	recStart          time.Time
@@ -169,6 +171,11 @@ func (noEffect) Exec() error { return nil }
 // abortCode: the protected handler aborts the exchange by panicking instead of answering.
 const abortCode = -1
 
+// abandonedCode: the request's context is ALREADY done when it reaches the breaker (the client gave up while the
+// request was held in front of it; a caller passed a timed-out context). Still a request: shielded while tripped,
+// subject to the ramp while recovering. The handler, where it is reached, answers 200.
+const abandonedCode = -2
+
 var legalEdges = map[string]bool{
 	"standby>standby": true, "standby>tripped": true,
 	"tripped>tripped": true, "tripped>recovering": true,
@@ -179,6 +186,13 @@ var legalEdges = map[string]bool{
 func (s *sys) request(code int, latency time.Duration) (string, []verdict) {
 	var vs []verdict
 	s.code, s.latency = code, latency
+	req := httptest.NewRequest("GET", "http://x/", nil)
+	if code == abandonedCode {
+		s.code = 200
+		ctx, cancel := context.WithCancel(req.Context())
+		cancel()
+		req = req.WithContext(ctx)
+	}
 	arrival := clock.Now().UTC()
 	before := s.state()
 	inv := s.invoked
@@ -189,7 +203,7 @@ func (s *sys) request(code int, latency time.Duration) (string, []verdict) {
 				panic(p)
 			}
 		}()
-		s.cb.ServeHTTP(rec, httptest.NewRequest("GET", "http://x/", nil))
+		s.cb.ServeHTTP(rec, req)
 	}()
 	served := s.invoked > inv
 	if code == abortCode && served {
@@ -212,6 +226,11 @@ func (s *sys) request(code int, latency time.Duration) (string, []verdict) {
 		if served {
 			vs = append(vs, verdict{"C05:request-passed-during-fallback",
 				fmt.Sprintf("tripped at +%v, fallback %v, request arriving at +%v reached the protected handler (%s)", s.tripAt.Sub(base), s.cfg.fallback, arrival.Sub(base), obs)})
+			if s.retripped {
+				// "trips again and shields the backend anew"
+				vs = append(vs, verdict{"C12:not-shielded-anew-after-re-trip",
+					fmt.Sprintf("re-tripped from recovery at +%v, fallback %v, request arriving at +%v reached the protected handler (%s)", s.tripAt.Sub(base), s.cfg.fallback, arrival.Sub(base), obs)})
+			}
 		} else if rec.Code != http.StatusServiceUnavailable {
 			vs = append(vs, verdict{"C05:not-answered-by-fallback", obs})
 		}
@@ -270,6 +289,7 @@ func (s *sys) request(code int, latency time.Duration) (string, []verdict) {
 	// a new trip is observed when the state becomes tripped from another state
 	if after == "tripped" && before != "tripped" {
 		s.tripped, s.tripAt = true, now
+		s.retripped = before == "recovering"
 	} else if after == "standby" {
 		s.tripped = false
 	}
@@ -319,10 +339,15 @@ func alphabet(cfg config, prop, tier string) ([]string, []opDesc) {
 	addReq(cfg.badCode, 0)
 	if prop == "C12" {
 		addReq(abortCode, 0) // an admitted exchange that is aborted still was admitted
+		// a SLOW failing response (a gateway timeout as long as the fallback period): when it re-trips the breaker, the new
+		// fallback period counts from the trip - its completion - not from its arrival
+		addReq(cfg.badCode, cfg.fallback)
 	}
 	if prop != "C12" {
 		// a slow failing response: the trip happens when it COMPLETES, half a fallback period after it arrived
 		addReq(cfg.badCode, cfg.fallback/2)
+		names = append(names, "ReqWithDoneContext(200)")
+		descs = append(descs, opDesc{0, abandonedCode, 0, 0})
 	}
 	var ds []time.Duration
 	if prop == "C12" {
@@ -363,7 +388,7 @@ func model(cfg config, prop, tier string, depth int) *lib.Model[*sys] {
 	m.Key = func(s *sys) string {
 		now := clock.Now().UTC()
 		dm := lib.Dumper{Now: now}
-		return dm.Dump(s.cb) + fmt.Sprintf("|%d|%v,%d,%v,%d,%d,%d", now.UnixNano(), s.tripped, s.tripAt.UnixNano(), s.inRecovery, s.recStart.UnixNano(), s.passed, s.refused)
+		return dm.Dump(s.cb) + fmt.Sprintf("|%d|%v%v,%d,%v,%d,%d,%d", now.UnixNano(), s.tripped, s.retripped, s.tripAt.UnixNano(), s.inRecovery, s.recStart.UnixNano(), s.passed, s.refused)
 	}
 	m.OnTransition = func(s *sys, hist []int, obs []string, rep *lib.Report) {
 		o := obs[len(obs)-1]
@@ -377,6 +402,9 @@ func model(cfg config, prop, tier string, depth int) *lib.Model[*sys] {
 		f := strings.Fields(head)
 		rep.Outcome(f[0] + " " + f[1])
 		rep.Count("requests")
+		if descs[hist[len(hist)-1]].code == abandonedCode && strings.HasPrefix(f[0], "tripped>") {
+			rep.Count("requests_with_a_done_context_while_tripped")
+		}
 		if strings.Contains(f[0], ">tripped") && !strings.HasPrefix(f[0], "tripped") {
 			rep.Count("trips_observed")
 		}
@@ -467,7 +495,7 @@ func Run(tier string, sh lib.Shard, rep *lib.Report) {
 	if prop == "C12" {
 		rep.Require("requests_passed_during_recovery", "requests_refused_during_recovery", "returns_to_standby", "re_trips_from_recovery", "prepared_states_retripped_early_in_recovery")
 	} else {
-		rep.Require("trips_observed", "requests_shielded_while_tripped", "requests_passed_during_recovery", "returns_to_standby", "prepared_states_retripped_mid_recovery", "sub_millisecond_searches")
+		rep.Require("trips_observed", "requests_shielded_while_tripped", "requests_with_a_done_context_while_tripped", "requests_passed_during_recovery", "returns_to_standby", "prepared_states_retripped_mid_recovery", "sub_millisecond_searches")
 	}
 	// The order in which options are passed can only matter through the breaker that New builds: all six orders
 	// are built, and one representative per DISTINCT built breaker (reflective dump) is explored - a reduction
